@@ -232,11 +232,36 @@ def _reuse_after_caller_mutation(u, st, argobj):
         v.append(x)
 
 
+def _resolve_self(u, st):
+    """A step carrying "from_self": <accessor> takes its text argument from the RECEIVER's own accessor (u.with_fragment(
+    u.raw_fragment), u / u.name, u.with_query(u.query_string), ...): the texts a caller most naturally feeds back, and the ones
+    an "unchanged? return self" shortcut compares against.  Resolved to an ordinary step with the concrete text, so the record
+    TLC reads has the usual shape."""
+    st = dict(st)
+    acc = st.pop("from_self")
+    try:
+        val = getattr(u, acc)
+    except Exception:  # noqa: BLE001
+        return st
+    if type(val) is not str:
+        return st
+    cps = [ord(c) for c in val]
+    if st["op"] in ("with_user", "with_password", "with_fragment"):
+        st["v"] = [cps]
+    elif st["op"] in ("with_path", "with_name", "truediv"):
+        st["v"] = cps
+    elif st["op"] in ("with_query", "extend_query", "update_query"):
+        st["q"] = {"form": "str", "s": cps, "pairs": []}
+    return st
+
+
 def run_prog(prog, fields=None, extras=()):
     """Execute a program; yields one record per step.  Stops at the first step that raises."""
     u = None
     recs = []
     for i, st in enumerate(prog):
+        if "from_self" in st:
+            st = _resolve_self(u, st) if u is not None else {k: v for k, v in st.items() if k != "from_self"}
         rec = {"act": st["op"], "args": st, "step": i}
         other = None
         if st["op"] == "join":
